@@ -3,6 +3,7 @@ import NimaVerif.Drv.Names
 import NimaVerif.Drv.Edit
 import NimaVerif.Drv.Cli
 import NimaVerif.Drv.Paths
+import NimaVerif.Drv.Value
 /-!
 Line-protocol driver: one request per line on stdin, one reply per line on stdout.
 Each topic has its own handler module `NimaVerif/Drv/<Topic>.lean` exporting
@@ -15,7 +16,8 @@ def handlers : List (SExp → Option SExp) := [
   Nima.Drv.Names.handle,
   Nima.Drv.Edit.handle,
   Nima.Drv.Cli.handle,
-  Nima.Drv.Paths.handle
+  Nima.Drv.Paths.handle,
+  Nima.Drv.Value.handle
 ]
 
 def dispatch (req : SExp) : SExp :=
